@@ -264,6 +264,14 @@ def mk_sendError(ctx, aspects, on_abort=None):
             if 'gate' in aspects:
                 # not in an except arm: a protocol-order violation (RFC 5246 s7.2.2 unexpected_message)
                 oblige(ex, st, 'abort#%d:alert-is-unexpected_message' % k, d == AlertDescription.unexpected_message, ctx)
+                # C14: "handshake messages split across or packed into records in any way are processed identically wherever
+                # the protocol allows such framing" -- only TLS 1.3 forbids bytes after a key-change message (RFC 8446 5.1);
+                # in TLS <= 1.2 a ServerHello may share its record with the messages that follow
+                msg = args[1] if len(args) > 1 else None
+                txt = msg.s if isinstance(getattr(msg, 's', None), str) else (ast.unparse(node.args[1]) if len(node.args) > 1 else '')
+                if 'aligned' in txt:
+                    oblige(ex, st, 'abort#%d:record-boundary-alignment-is-demanded-only-in-TLS1.3' % k,
+                           F(ev(ex, st, fr, 'self.version > (3, 3)')), ctx)
             if on_abort is not None:
                 on_abort(ex, st, fr, node, d, k)
         return [Outcome('raise', st, VExc(NoReturn, [desc], '_sendError line %d' % getattr(node, 'lineno', 0)))]
@@ -572,7 +580,7 @@ def gate_task(exp_is_tuple, sec_is_tuple):
             else:
                 oblige(ex, o.st, 'raise#%d[%s]:only-documented-exceptions-leave' % (k, cls.__name__), False, ctx)
 
-    return m2task('_getMsg/gate[%s]' % label, ('C06',), TRL + '_getMsg', spec, check=check,
+    return m2task('_getMsg/gate[%s]' % label, ('C06', 'C14'), TRL + '_getMsg', spec, check=check,
                   setup=entry_setup(ctx, assume_shapes), opts=OPTS,
                   doc='_getMsg returns only a message whose content type is in expectedType and, for handshake, whose '
                       'type is in secondaryType; records are dropped only for the enumerated reasons; TLS 1.3 '
